@@ -97,6 +97,8 @@ def pool_messages():
     return {
         'append-E': lambda n: g.msg_story_append([st('E')], msg_id=n),
         'move-A-end': lambda n: g.msg_story_move('A', BLANK, msg_id=n),
+        'roReplace': lambda n: g.msg_ro_replace([g.story_xml('A', 1, body=(('p', 'plain'), ('i', 'a'), ('i', 'c'))), st('G'), g.story_xml('C', 1)],
+                                               'after', g.meta_elems(1, variant=1), msg_id=n),
         'ready': lambda n: g.msg_ready_to_air(msg_id=n),
         'delete-unknown(warn)': lambda n: g.msg_story_delete([UNKNOWN], msg_id=n),
         'eamove-A,unknown(fail@2)': lambda n: g.msg_ea('MOVE', 'C', sources=[g.id_tag('storyID', 'A'), g.id_tag('storyID', UNKNOWN)], msg_id=n),
